@@ -27,6 +27,7 @@ class C03(Prop):
     # translator tie (DESIGN II.7): module -> pipeline heads built from that observer
     tie_modules = {
         "RxModel.GenTie.Sources": [],
+        "RxModel.GenTie.TimeSources": ["startwith"],           # start_with: the values in order, then the source is subscribed
         # the derived-operator layer of src/observable.rs: the chain each provided method builds, and its list semantics
         "RxModel.GenTie.Derived": ["first", "firstor", "lastor", "elementat", "ignore", "all", "reduce", "sum", "count",
                                    "min", "max", "average"],      # of / of_result / of_option / of_fn / from_iter / throw / empty / never
